@@ -397,12 +397,12 @@ class Gen:
     def noise_block(self, out):
         r = self.rng
         while r.random() < self.p_comment * 0.6:
-            if r.random() < 0.65 or not self.layout:
+            if r.random() < 0.65:
                 out += b" " * r.randint(1, 4) + b"#" + self.comment_text() + b"\n"
                 self.tag("comment:block_indented")
             else:
-                out += b"#" + self.comment_text() + b"\n"
-                self.tag("layout:block_comment_unindented")
+                out += b"#" + self.comment_text() + b"\n"     # ninja drops a comment line together with its newline, wherever it starts
+                self.tag("comment:block_unindented")
 
     def trail(self):
         if self.rng.random() < self.p_trail:
